@@ -630,3 +630,74 @@ Definition m_dump_rle (m : mimg) : option (list Z) :=
 Definition u_case (row : list Z) : list Z * list Z :=
   let enc := dfrle_encode (map Z.to_nat row) in
   (map Z.of_nat (dfrle_decode enc), map Z.of_nat enc).
+
+(* ------------------------------------------------------------------------------------------ *)
+(** * GRwritechunk / GRreadchunk
+    GRsetchunk hands the chunked-element layer the dimensions (xdim, ydim) in that order, so the chunk grid is
+    laid over the element seen as an [xdim] x [ydim] row-major array: chunk (o0, o1) with lengths (c0, c1) holds
+    the pixels with linear index (o0*c0 + l / c1) * ydim + (o1*c1 + l mod c1), l < c0*c1, in that order.
+    The caller's buffer is converted between its interlace and pixel interlace with GRIil_convert using the
+    chunk lengths as dimensions.  Only chunk lengths that divide the image dimensions are in the domain. *)
+
+Definition chunk_cell (ydim c0 c1 o0 o1 l : nat) : nat := (o0 * c0 + l / c1) * ydim + (o1 * c1 + l mod c1).
+
+Definition chunk_inside (xdim ydim c0 c1 o0 o1 : nat) : bool :=
+  (1 <=? c0) && (1 <=? c1) && ((o0 + 1) * c0 <=? xdim) && ((o1 + 1) * c1 <=? ydim).
+
+(** chunk-local index of linear pixel [p], if it lies in chunk (o0, o1) *)
+Definition cell_of (ydim c0 c1 o0 o1 p : nat) : option nat :=
+  let a := p / ydim in
+  let b := p mod ydim in
+  if (a / c0 =? o0) && (b / c1 =? o1) then Some ((a mod c0) * c1 + b mod c1) else None.
+
+Definition put_chunk {T} (t0 : T) (img : list T) (xdim ydim c0 c1 o0 o1 : nat) (px : list T) : list T :=
+  map (fun p => match cell_of ydim c0 c1 o0 o1 p with Some l => nth l px t0 | None => nth p img t0 end)
+      (seq 0 (xdim * ydim)).
+
+Definition get_chunk {T} (t0 : T) (img : list T) (ydim c0 c1 o0 o1 : nat) : list T :=
+  map (fun l => nth (chunk_cell ydim c0 c1 o0 o1 l) img t0) (seq 0 (c0 * c1)).
+
+Definition m_writechunk (m : mimg) (c0 c1 o0 o1 : nat) (bytes : list Z) : option mimg :=
+  let g := m_g m in
+  match m_elt m with
+  | Some e =>
+    let user := group (gcs g) (c0 * c1 * gnc g) bytes in
+    let pixbuf := if il_eqb (m_wil m) ILpixel then user
+                  else il_convert_walk (m_wil m) ILpixel c0 c1 (gnc g) 1 user (repeat [] (length user)) in
+    let px := chunk_px [] (gnc g) (c0 * c1) (map (codec (gswap g)) pixbuf) in
+    Some (m_set_elt m (Some (put_chunk [] e (gx g) (gy g) c0 c1 o0 o1 px)) (m_store m))
+  | None => None
+  end.
+
+Definition s_writechunk (s : simg) (c0 c1 o0 o1 : nat) (bytes : list Z) : option simg :=
+  let g := s_g s in
+  match s_data s with
+  | Some img =>
+    if chunk_inside (gx g) (gy g) c0 c1 o0 o1 && (length bytes =? c0 * c1 * gnc g * gcs g) then
+      let user := group (gcs g) (c0 * c1 * gnc g) bytes in
+      Some (s_set_data s (Some (put_chunk [] img (gx g) (gy g) c0 c1 o0 o1
+                                          (user_pixels (repeat 0%Z (gcs g)) (s_wil s) c0 c1 (gnc g) user))))
+    else None
+  | None => None
+  end.
+
+Definition m_readchunk (m : mimg) (c0 c1 o0 o1 : nat) : option (list Z) :=
+  let g := m_g m in
+  match m_elt m with
+  | Some e =>
+    let mem := map (codec (gswap g)) (concat (get_chunk [] e (gy g) c0 c1 o0 o1)) in
+    Some (concat (if il_eqb (m_ril m) ILpixel then mem
+                  else il_convert_walk ILpixel (m_ril m) c0 c1 (gnc g) 1 mem (repeat [] (length mem))))
+  | None => None
+  end.
+
+Definition s_readchunk (s : simg) (c0 c1 o0 o1 : nat) : option (list Z) :=
+  let g := s_g s in
+  match s_data s with
+  | Some img =>
+    if chunk_inside (gx g) (gy g) c0 c1 o0 o1 then
+      Some (concat (il_convert_spec (repeat 0%Z (gcs g)) ILpixel (s_ril s) c0 c1 (gnc g) 1
+                                    (concat (get_chunk [] img (gy g) c0 c1 o0 o1))))
+    else None
+  | None => None
+  end.
